@@ -339,7 +339,7 @@ def coq_g(g):
 
 
 def coq_nl(xs):
-    return coq_list(f"{x}%nat" for x in xs)
+    return coq_list(f"{x}%nat" for x in xs) if xs else "(@nil nat)"
 
 
 def coq_oz(b):
@@ -390,7 +390,7 @@ def coq_owner(kind):
 def coq_case(case, trace):
     entity, t, g, xs, fl, ops = case
     return (f"({coq_owner(entity)}, {'true' if (t or entity != 'Entity') else 'false'}, {coq_g(g)}, {coq_nl(xs)}, "
-            + coq_list(coq_op(o) for o in ops) + ", " + coq_z(common.zhash_d(trace, 3)) + ")")
+            + (coq_list(coq_op(o) for o in ops) if ops else "(@nil op)") + ", " + coq_z(common.zhash_d(trace, 3)) + ")")
 
 
 def shrink_ops(case, pred):
@@ -452,7 +452,7 @@ def exhaustive_cases(maxlen):
 def frag_lists(chk, can_eval=True):
     rng = chk.rng
     cases = []
-    nrand, maxlen, exh = (2500, 8, 2) if chk.tier == "quick" else (30000, 12, 3)
+    nrand, maxlen, exh = (2500, 8, 2) if chk.tier == "quick" else (20000, 12, 3)
     ex = exhaustive_cases(exh)
     cases += ex
     chk.cov["list_exhaustive"] = (f"every sequence of length <= {exh} over 14 (Entity) / 12 (AssetInformation, Qualifier, "
